@@ -1,1 +1,97 @@
-pub fn cmd_guid_obs(_a: &[String]) {}
+//! C10 (server GUID part): every way to construct a zbus::Guid / OwnedGuid from a string.
+use crate::util::*;
+use serde_json::{json, Value as J};
+use std::borrow::Cow;
+use std::str::FromStr;
+use zbus::{Guid, OwnedGuid};
+use zvariant::serialized::Context;
+use zvariant::{Str, LE};
+
+fn opt_esc(b: u8) -> bool {
+    b.is_ascii_alphanumeric() || matches!(b, b'-' | b'_' | b'/' | b'.' | b'\\' | b'*')
+}
+
+fn path(name: &str, r: Result<Option<String>, String>, s: &str) -> J {
+    match r {
+        Ok(Some(v)) => json!({"p": name, "ok": true, "same": v == s}),
+        Ok(None) => json!({"p": name, "ok": false, "same": false}),
+        Err(p) => json!({"p": name, "ok": false, "same": false, "panic": p}),
+    }
+}
+
+/// All construction paths on one candidate (valid UTF-8) string.
+pub fn observe(s: &str) -> Vec<J> {
+    let mut v = vec![];
+    v.push(path("TryFrom<&str>", guarded(|| Guid::try_from(s).ok().map(|g| g.as_str().to_string())), s));
+    v.push(path("TryFrom<String>", guarded(|| Guid::try_from(s.to_string()).ok().map(|g| g.as_str().to_string())), s));
+    v.push(path("TryFrom<Str>", guarded(|| Guid::try_from(Str::from(s)).ok().map(|g| g.as_str().to_string())), s));
+    v.push(path("TryFrom<Cow<str>>", guarded(|| Guid::try_from(Cow::Borrowed(s)).ok().map(|g| g.as_str().to_string())), s));
+    v.push(path("FromStr", guarded(|| Guid::from_str(s).ok().map(|g| g.as_str().to_string())), s));
+    let leaked: &'static str = Box::leak(s.to_string().into_boxed_str());
+    v.push(path("from_static_str", guarded(|| Guid::from_static_str(leaked).ok().map(|g| g.as_str().to_string())), s));
+    // serde: from the D-Bus encoding of the string ...
+    let ctx = Context::new_dbus(LE, 0);
+    if let Ok(data) = zvariant::to_bytes(ctx, s) {
+        v.push(path("Deserialize Guid (D-Bus)", guarded(|| data.deserialize::<Guid<'_>>().ok().map(|(g, _)| g.as_str().to_string())), s));
+        v.push(path("Deserialize OwnedGuid (D-Bus)", guarded(|| data.deserialize::<OwnedGuid>().ok().map(|(g, _)| g.as_str().to_string())), s));
+    }
+    // ... and from JSON
+    if let Ok(js) = serde_json::to_string(s) {
+        v.push(path("Deserialize OwnedGuid (JSON)", guarded(|| serde_json::from_str::<OwnedGuid>(&js).ok().map(|g| g.as_str().to_string())), s));
+    }
+    // the guid= key of an address (only candidates that may stand unescaped in an address)
+    if !s.is_empty() && s.bytes().all(opt_esc) {
+        let a = format!("unix:path=/x,guid={s}");
+        v.push(path(
+            "Address guid=",
+            guarded(|| zbus::Address::from_str(&a).ok().map(|a| a.guid().map(|g| g.as_str().to_string()).unwrap_or_default())),
+            s,
+        ));
+    }
+    v
+}
+
+/// guid-obs <cases.ndjson> <out.ndjson> [<n random> <seed>]
+pub fn cmd_guid_obs(args: &[String]) {
+    let mut out = Out::create(&args[1]);
+    let run = |bytes: Vec<u8>, id: J, out: &mut Out| {
+        match String::from_utf8(bytes.clone()) {
+            Ok(s) => out.line(&json!({"ev": "Guid", "id": id, "s": jbytes(&bytes), "text": s, "paths": observe(&s)})),
+            // not expressible as &str: no construction path takes it
+            Err(_) => out.line(&json!({"ev": "Guid", "id": id, "s": jbytes(&bytes), "paths": []})),
+        }
+    };
+    let mut n = 0u64;
+    for c in read_cases(&args[0]) {
+        run(bytes_of(&c["s"]), c["id"].clone(), &mut out);
+        n += 1;
+    }
+    if args.len() >= 4 {
+        // seeded random near-valid candidates: 32 +- 1 characters over hex digits with a few strays
+        let count: u64 = args[2].parse().unwrap();
+        let mut g = Rng(args[3].parse::<u64>().unwrap() ^ 0xC10);
+        const HEX: &[u8] = b"0123456789abcdefABCDEF";
+        const STRAY: &[u8] = b"gG-{}:/@` zZ+.";
+        for _ in 0..count {
+            let len = match g.below(8) {
+                0 => 31,
+                1 => 33,
+                2 => 36,
+                _ => 32,
+            };
+            let strays = g.below(3);
+            let mut b: Vec<u8> = (0..len).map(|_| HEX[g.below(HEX.len() as u64) as usize]).collect();
+            for _ in 0..strays {
+                let i = g.below(len) as usize;
+                b[i] = STRAY[g.below(STRAY.len() as u64) as usize];
+            }
+            if len == 36 && g.chance(1, 2) {
+                for i in [8, 13, 18, 23] {
+                    b[i] = b'-';
+                }
+            }
+            run(b, J::from(n), &mut out);
+            n += 1;
+        }
+    }
+}
